@@ -179,6 +179,7 @@ class Histogram1D(ObjectWithBinning, HistogramBase):
 
         if self.keep_missed:
             missed_array = np.array(missed, dtype=float)
+            self._check_missed(missed_array)
             if self.dtype.kind in "iu" and np.isnan(missed_array).any():
                 # "Unknown" (e.g. underflow of inconsecutive bins) cannot be stored as an integer
                 self._missed = missed_array
@@ -325,6 +326,7 @@ class Histogram1D(ObjectWithBinning, HistogramBase):
         return self._missed[0]
 
     def _set_missed(self, index: int, value) -> None:
+        self._check_missed(value)
         if self._missed.dtype.kind in "iu" and np.isnan(value):
             # "Unknown" cannot be stored as an integer
             self._missed = self._missed.astype(float)
@@ -518,6 +520,7 @@ class Histogram1D(ObjectWithBinning, HistogramBase):
             # The constructor records nothing for keep_missed=False; what had been recorded before
             # the tracking was switched off (h.keep_missed = False, a + b) is still reported
             missed_array = np.array(missed, dtype=float)
+            cls._check_missed(missed_array)
             if not (histogram.dtype.kind in "iu" and np.isnan(missed_array).any()):
                 missed_array = np.array(missed, dtype=histogram.dtype)
             histogram._missed = missed_array
